@@ -3,7 +3,7 @@
    /repo on every run by srcfacts/golite.go) under the interpreter of Base/GoLite.v.  [fn t] is the
    translated function, or a function that panics at once when the translator refused it. *)
 From Coq Require Import String.
-From Radius Require Import Base.Bytes Base.Res Base.GoLite Gen.Src Model.SrcRun Proofs.SrcBase Proofs.SrcCtx Spec.C10 Proofs.SrcCodecs Proofs.SrcPrefix.
+From Radius Require Import Base.Bytes Base.Res Base.GoLite Gen.Src Model.SrcRun Proofs.SrcBase Proofs.SrcCtx Spec.C10 Proofs.SrcCodecs Proofs.SrcPrefix Proofs.SrcNewPrefix.
 Open Scope list_scope.
 Open Scope nat_scope.
 
@@ -139,3 +139,9 @@ Theorem C10_source_IPv6Prefix : forall cx n a, uses_prims cx -> bytes_ok a -> 16
   Some (Some (ret_res (spec_ipv6prefix a) (fun r => VRec [VBytes (fst r); VBytes (snd r)]) VNil)).
 Proof. exact src_IPv6Prefix_spec. Qed.
 Print Assumptions C10_source_IPv6Prefix.
+
+Theorem C10_source_NewIPv6Prefix : forall cx n ip mask, uses_prims cx -> bytes_ok ip -> bytes_ok mask -> 8 < n ->
+  run cx n (fn src_NewIPv6Prefix) [VRec [VBytes ip; VBytes mask]] =
+  Some (Some (ret_res (spec_new_ipv6prefix ip mask) VBytes VNil)).
+Proof. exact src_NewIPv6Prefix_spec. Qed.
+Print Assumptions C10_source_NewIPv6Prefix.
